@@ -381,6 +381,26 @@ def check_action(ck: Check, gd: graphs.GDef, cfg, rows, path):
     if ap != want_ap:
         ck.violation(f"C02/action/apply_path/{gd.kind}", "apply_path differs from composing the actions in order", {"case": case, "expected": want_ap[:6], "observed": ap[:6]})
         return
+    # derived copies (same generators on another central state; inverted generators) must act by the defined action too
+    if gd.kind == "perm":
+        try:
+            narrow = [min(v, 1) for v in gd.central]
+            gc = g.modified_copy(g.definition.with_central_state(narrow))
+            gi = g.with_inverted_generators
+            t = torch.tensor([narrow, list(gd.central)], dtype=torch.int64)
+            nb_c = np.asarray(gc.get_neighbors_decoded(t)).reshape(-1, size).tolist()
+            nb_i = np.asarray(gi.get_neighbors_decoded(t)).reshape(-1, size).tolist()
+        except (AssertionError, OverflowError, RuntimeError, IndexError) as ex:
+            ck.violation(f"C02/action/copy-error/w={cfg.get('bit_encoding_width', 'auto')}", f"action on a derived copy raised: {type(ex).__name__}: {ex}", {"case": case})
+            return
+        rows2 = [narrow, list(gd.central)]
+        want_c = [list(gd.act(i, r)) for i in range(len(gd.gens)) for r in rows2]
+        inv = graphs.GDef("perm", [graphs.inv_perm(p) for p in gd.gens], gd.central)
+        want_i = [list(inv.act(i, r)) for i in range(len(gd.gens)) for r in rows2]
+        ck.evaluations += 2
+        if nb_c != want_c or nb_i != want_i:
+            ck.violation(f"C02/action/derived-copy/w={cfg.get('bit_encoding_width', 'auto')}", "a derived copy (modified central state / inverted generators) does not act by the defined action", {"case": case, "copy_ok": nb_c == want_c, "inverted_ok": nb_i == want_i})
+            return
     # model: action through the driver
     if gd.kind == "perm":
         for i, p in enumerate(gd.gens[:2]):
